@@ -22,6 +22,20 @@ CHECKS = {
          'Bounded-exhaustive over reply scripts in variant names up to the stated depth for all 18 streams, each letter instantiated with several canonical values; random scripts to depth 40.', 'trusts the reply-set/final-packet table (DESIGN Appendix B), the reference encoder for replies and the decoder bridge for commands', '8 C05, 6, D.1'),
  'C06': ('fault_enumeration', 'fault injection at every position of scripted exchanges (NACK, foreign control field, malformed body, truncation at every offset, EOF) with a trace checker over the event log',
          'Every valid prefix up to the stated depth x every fault kind x every position (ack position included) x every truncation offset for all 18 streams.', 'malformed bodies restricted to those whose rejection follows from C02/C13', '8 C06, 6, D.1'),
+ 'C07': ('exploration', 'sequential client model (token map) as oracle over call histories of the real Feig client driven against a simulated terminal under tokio\'s paused clock; invariant hook on the client\'s token map after every call; probe suffix at the API boundary',
+         'Model-guided bounded-exhaustive over all histories of the stated depth (every terminal outcome branched where the model accepts the call) x transactions_max_num 0..3, plus random walks to depth 40.', 'trusts the simulated terminal (speaks ZVT through the reference codec) and the 30-line client model of DESIGN D.3; hook zvt_verif (in-memory connector + read-only map snapshot)', '8 C07, 7, D.3'),
+ 'C08': ('exploration', 'simulated terminal decoding the client\'s requests with the reference codec + u128 arithmetic oracle + ledger balance (conservation) check',
+         'Held on the begin/commit scenarios explored: boundary-biased amounts over the whole 12-digit field and all of u64, currencies 0..9999, CP437 tokens to 200 chars, receipts 1..9999, status fields over their BCD ranges.', 'trusts the simulated terminal and reference decoder; 64-bit usize', '8 C08, 7'),
+ 'C09': ('fault_enumeration', 'fault injection at every packet position of every public operation (fault-free run numbers the positions) + offline connection checker R1-R4 over the per-connection event log with virtual timestamps',
+         'Single faults exhaustive over operations x positions x kinds; pairs around every position and sampled triples; non-fault delays and serial letter case as negative controls.', 'after a fault the simulated terminal is passive on that connection, so later bytes there are the client\'s', '8 C09, 7, D.4'),
+ 'C10': ('fault_enumeration', 'virtual-time watchdog (one virtual day around every public call on tokio\'s paused clock) + panic/overflow monitor under stall injection at every packet position and exhaustive read_card_timeout 0..255',
+         'Every operation x one-shot and persistent silence at every packet point (handshake included) x connect stalls; read_card_timeout exhaustively; configuration extremes. Bounded progress is decided on virtual time, never wall clock.', 'watchdog bound = 86400 virtual seconds, far above the analytic retry budget (exchanges x 20 x (2 + 60 + 60) s)', '8 C10, 7'),
+ 'C18': ('exploration', 'reference classification function (three-valued where the statement is silent) as oracle over read_card executions against the simulated terminal; each card presented twice with irrelevant fields varied',
+         'Held on the cards explored (UID absent/0..20 bytes in adversarial patterns, application lists, no TLV, intermediates) and all 256 abort codes.', 'applications listed only under tag 62 are recorded, not judged', '8 C18'),
+ 'C19': ('exploration', 'temporal trace checker over the simulated terminal\'s request log per public call, driven by the sequential client model',
+         'The C07 histories under varied clean-up behaviour (dangling receipt yes/no/absent field, reversal abort, every end-of-day abort code, extra packets).', 'trusts the client model for "no transaction left open" and the simulated terminal', '8 C19, D.3'),
+ 'C20': ('exploration', 'exhaustive enumeration of result codes x abort sites x positions against an independently typed table of the specification\'s messages; structured error-chain inspection',
+         'All 256 codes x 12 abort sites x up to 5 positions, duplicate-free; every site must be reached or the run is inconclusive.', 'the 79-entry message table in c20.rs is typed from chapter 10 of the specification', '8 C20, D.5'),
  'C11': ('exploration', 'scripted terminal + reference codec as oracle over real files created by the harness; trace checker over the event log',
          'Held on the uploads explored (thousands of directories x block sizes x request scripts incl. invalid requests); sampled.', 'trusts the reference encodings of announcement / request / data block in seq.rs (WfCodec)', '8 C11, D.1'),
  'C13': ('exploration', 'structure-aware mutation of reference chunk trees (all permutations <= 6 groups, duplicates, removals, foreign tags) with the reference decoder on the same bytes as oracle',
